@@ -23,6 +23,11 @@ def shards(mode, bin_, n, **kw):
 
 
 PROPS = {
+    "C05": {
+        "runs": [native("c05")] + shards("miri", "c05", 8) + [{"mode": "asan", "bin": "c05"}],
+        "expect_monitors": ["lut_encode_f32_sweep", "lut_decode_codes", "lut_encode_f64", "float_curves", "rgb_luma_wiring", "lut_memory_safety"],
+        "assumptions": ASSUME_COMMON + ["standard curves typed from IEC 61966-2-1, BT.709/2020, Adobe RGB (1998), SMPTE RP 431-2, ROMM RGB"],
+    },
     "C06": {
         "runs": [native("c06")],
         "expect_monitors": ["f32_to_uint_sweep", "f64_to_uint", "uint_source_u8", "uint_source_u16", "uint_source_u32", "uint_source_u64", "uint_source_u128", "format_wiring"],
